@@ -6,8 +6,9 @@ CONSTANTS
   Weak <- NoWeak
   MaxConn = 1
   MaxSend = 2
-  MaxAdv = 3
+  MaxAdv = 2
   CacheMax = 16
+  Extras = {}
   Asks = {FALSE}
 INVARIANTS Attribution DialSafety Whitelist
 CHECK_DEADLOCK FALSE
